@@ -11,8 +11,10 @@ import (
 	"github.com/ozontech/seq-db/parser"
 	"github.com/ozontech/seq-db/pattern"
 
+	"verif/internal/gen"
 	"verif/internal/h"
 	"verif/internal/model"
+	"verif/internal/sdb"
 )
 
 // C13 — token matching equals glob/range semantics, with or without dictionary narrowing.
@@ -24,8 +26,8 @@ func init() {
 		Rule: "exhaustive small scope: (a) every pattern over {a,b,*} (no adjacent wildcards) x every token over {a,b} up to the length bound through pattern.Search on an unordered provider and on an ordered single-block provider vs a DP glob matcher; " +
 			"(b) every range (all end pairs of a value set, open/closed/unbounded) x every token of the set vs the numeric-if-all-given-ends-numeric rule; " +
 			"(c) every sorted dictionary up to the size bound x every split into consecutive blocks -> real token.Table.SelectEntries(field, hint) -> ordered provider over the selected entries -> pattern.Search must equal the scan of all tokens; " +
-			"(d) seeded long strings and large dictionaries. case = one pattern/range (a,b) or one dictionary with all its splits and patterns (c); non-trivial = matches some but not all tokens; distinct = case identity",
-		Assumptions: []string{"the ordered provider used in (c) serves tokens straight from the dictionary; the block-loading provider of sealed fractions is exercised end-to-end by C03 (multi-block dictionaries)"},
+			"(d) seeded long strings and large dictionaries; (e) live: one real store per batch, one document per token of a seeded dictionary (every other batch large enough for several dictionary blocks), every pattern/range as a search on the field on the active and on the sealed fraction (block-loading provider) vs the DP matcher over the documents. case = one pattern/range (a,b) or one dictionary with all its splits and patterns (c); non-trivial = matches some but not all tokens; distinct = case identity",
+		Assumptions: []string{"the ordered provider used in (c) serves tokens straight from the dictionary; the block-loading provider of sealed fractions is exercised by part (e) and by C03 (multi-block dictionaries)"},
 		Batches:     tiered(16, 64),
 		Run:         runC13,
 		Exhaustive:  func(string) bool { return true },
@@ -280,6 +282,124 @@ func runC13(w *h.W, batch int) {
 			ps = append(ps, p)
 		}
 		c13DictSplits(w, dict, ps, dr, 12)
+	}
+	c13Live(w, batch)
+}
+
+// c13Live (e): the block-loading dictionary of a real sealed fraction against the in-memory one of the active fraction and
+// the DP matcher: one store per batch, one document per token of a seeded dictionary (small exhaustive alphabet part plus,
+// in every other batch, enough long tokens for several dictionary blocks), every pattern / range as a search on the field,
+// before and after sealing. case = one (dictionary, filter); the result must be the documents whose token matches.
+func c13Live(w *h.W, batch int) {
+	r := w.Rng(555)
+	set := map[string]bool{}
+	for _, t := range allStrings("ab", 3) {
+		if t != "" {
+			set[t] = true
+		}
+	}
+	long := batch%2 == 1
+	if long {
+		for i := 0; i < 900; i++ {
+			b := make([]byte, r.Range(20, 40))
+			for j := range b {
+				b[j] = "abc"[r.Intn(3)]
+			}
+			set[string(b)] = true
+		}
+	}
+	for i := 0; i < 12; i++ {
+		set[fmt.Sprint(r.Intn(40)-10)] = true
+	}
+	var dict []string
+	for t := range set {
+		dict = append(dict, t)
+	}
+	sort.Strings(dict)
+	var docs []*model.Doc
+	for i, t := range dict {
+		id := model.ID{MID: gen.T0 + uint64(i), RID: uint64(i + 1)}
+		body := fmt.Sprintf(`{"i":%d}`, i)
+		docs = append(docs, &model.Doc{ID: id, Body: []byte(body), Toks: []model.Tok{{F: "k1", V: t}}})
+	}
+	st, err := sdb.Open(w.Sub("live"), sdb.Opt{Mapping: StoreMapping()})
+	if err != nil {
+		if w.Begin(map[string]any{"part": "live", "step": "open"}) {
+			w.Violation("C13:store-did-not-start", map[string]any{"error": err.Error()})
+		}
+		return
+	}
+	defer st.Stop()
+	if err := st.Bulk(shuffled(r, docs)); err != nil {
+		if w.Begin(map[string]any{"part": "live", "step": "ingest"}) {
+			w.Violation("C13:bulk-error", map[string]any{"error": err.Error()})
+		}
+		return
+	}
+	st.WaitIdle()
+	var qs []*model.Q
+	for _, p := range allStrings("ab*", 3) {
+		if p != "" && !strings.Contains(p, "**") {
+			qs = append(qs, &model.Q{Op: "lit", Field: "k1", Pat: p})
+		}
+	}
+	for i := 0; i < 40; i++ {
+		base := h.Pick(r, dict)
+		p := base
+		switch r.Intn(5) {
+		case 0:
+			p = base[:r.Intn(len(base)+1)] + "*"
+		case 1:
+			p = "*" + base[r.Intn(len(base)+1):]
+		case 2:
+			a := r.Intn(len(base) + 1)
+			p = base[:a] + "*" + base[a:]
+		case 3:
+			p = "*"
+		}
+		qs = append(qs, &model.Q{Op: "lit", Field: "k1", Pat: p})
+	}
+	// the field's first and last token, exactly and as a prefix (block pre-selection borders)
+	for _, t := range []string{dict[0], dict[len(dict)-1]} {
+		qs = append(qs, &model.Q{Op: "lit", Field: "k1", Pat: t}, &model.Q{Op: "lit", Field: "k1", Pat: t[:len(t)-1] + "*"})
+	}
+	ends := []string{"-10", "0", "5", "29", "a", "ab", "b", "bbb", "c"}
+	for i := 0; i < 24; i++ {
+		q := &model.Q{Op: "range", Field: "k1", Lo: h.Pick(r, ends), Hi: h.Pick(r, ends), LoInc: r.Bool(), HiInc: r.Bool(), LoUnb: r.Chance(1, 6), HiUnb: r.Chance(1, 6)}
+		qs = append(qs, q)
+	}
+	for _, form := range []string{"active", "sealed"} {
+		if form == "sealed" {
+			st.SealAll()
+		}
+		for _, q := range qs {
+			text := q.SeqQL(r)
+			desc := map[string]any{"part": "live", "form": form, "filter": text, "dictionary_tokens": len(dict), "multi_block": long}
+			if !w.Begin(desc) {
+				continue
+			}
+			exp := model.Search(docs, model.Req{Q: q, From: 0, To: 1 << 62, Limit: 1 << 30})
+			res, err := st.Search(sdb.SearchReq{Query: text, SeqQL: true, From: 0, To: 1 << 62, Size: len(docs) + 10})
+			w.Count("live_searches", 1)
+			switch {
+			case err != nil:
+				w.Violation("C13:live-error:"+errSig(err.Error()), map[string]any{"case": desc, "error": err.Error()})
+			case !idsEqual(res.IDs, exp.IDs):
+				var miss []string
+				got := map[model.ID]bool{}
+				for _, id := range res.IDs {
+					got[id] = true
+				}
+				for _, d := range exp.Docs {
+					if !got[d.ID] && len(miss) < 5 {
+						miss = append(miss, d.Toks[0].V)
+					}
+				}
+				w.Violation("C13:live-wrong-tokens:"+form, map[string]any{"case": desc, "diff": fmt.Sprintf("matched %d documents, expected %d; tokens missed (first): %q", len(res.IDs), len(exp.IDs), miss)})
+			default:
+				w.Held(fmt.Sprintf("live|%s|%v|%s", form, long, q.Shape()), len(exp.IDs) > 0 && len(exp.IDs) < len(docs))
+			}
+		}
 	}
 }
 
